@@ -292,7 +292,7 @@ def check_mutated(shape_name, cls, shift, res):
     import copy
     base, _ = obstacle_spec("dynamic-traj", shape_name, cls, 0, 2, shift, 0)
     x, y, th = POSES[(shift + 5) % len(POSES)]
-    for mut in ("update_initial_state", "initial_state=", "update_prediction", "prediction=None"):
+    for mut in ("update_initial_state", "initial_state=", "update_prediction", "prediction=None", "trajectory.append_state"):
         tag = f"dynamic-traj|{shape_name}|{cls}|after:{mut}"
         o = spec.mk_obstacle(base)
         for t in range(0, 5):
@@ -309,6 +309,12 @@ def check_mutated(shape_name, cls, shift, res):
             elif mut == "update_prediction":
                 now["prediction"] = {"k": "trajectory", "t0": 2, "shape": SHAPES[shape_name], "states": [traj_state(cls, 2, x, y, th), traj_state(cls, 3, y, x, -th)]}
                 o.update_prediction(spec.mk_prediction(now["prediction"]))
+            elif mut == "trajectory.append_state":
+                # the trajectory of the prediction is extended by one state through its public method
+                t_next = now["prediction"]["t0"] + len(now["prediction"]["states"])
+                nst = traj_state(cls, t_next, x, y, th)
+                now["prediction"]["states"] = list(now["prediction"]["states"]) + [nst]
+                o.prediction.trajectory.append_state(spec.mk_state(nst))
             else:
                 now["prediction"] = None
                 o.prediction = None
